@@ -128,14 +128,14 @@ impl EightChar {
         term = term.next(m);
       }
       let solar_time: SolarTime = term.get_julian_day().get_solar_time();
-      if solar_time.get_year() >= start_year {
-        // 日干支和节令干支的偏移值
-        let mut solar_day: SolarDay = solar_time.get_solar_day();
-        let d: isize = self.day.next(-(solar_day.get_lunar_day().get_sixty_cycle().get_index() as isize)).get_index() as isize;
-        if d > 0 {
-          // 从节令推移天数
-          solar_day = solar_day.next(d);
-        }
+      // 日干支和节令干支的偏移值
+      let mut solar_day: SolarDay = solar_time.get_solar_day();
+      let d: isize = self.day.next(-(solar_day.get_lunar_day().get_sixty_cycle().get_index() as isize)).get_index() as isize;
+      if d > 0 {
+        // 从节令推移天数
+        solar_day = solar_day.next(d);
+      }
+      if solar_day.get_year() >= start_year {
         for &hour in hours.iter() {
           let mut mi: usize = 0;
           let mut s: usize = 0;
